@@ -200,6 +200,10 @@ class Doc:
             lvl = int(sym[1])
             self.rubrics.append((f"N{i}", lvl))
             self.lines += ["```{note}", "#" * lvl + f" N{i}", "", "note text", "```", ""]
+        elif kind == "O":  # heading directly after an option line (no blank line): it is body, not a comment of the option block
+            lvl = int(sym[1])
+            self.rubrics.append((f"O{i}", lvl))
+            self.lines += ["```{note}", ":class: c", "#" * lvl + f" O{i}", "", "note text", "```", ""]
         elif kind == "M":  # nested two deep: admonition containing a quote containing a heading
             lvl = int(sym[1])
             self.rubrics.append((f"M{i}", lvl))
@@ -314,7 +318,7 @@ class TitleHeaderSystem(_Base):
         return Obs(digest=(tuple(d.model.sections), tuple(d.model.warn_lines)), nontrivial=len(lv) >= 1, violations=viol[:3])
 
 
-MIXED = ["H1", "H2", "H3", "H4", "H6", "P", "Q1", "Q3", "L1", "L2", "N1", "N3", "M2", "T2", "S1", "I0", "I1", "I2", "J1", "J2"]
+MIXED = ["H1", "H2", "H3", "H4", "H6", "P", "Q1", "Q3", "L1", "L2", "N1", "N3", "O2", "M2", "T2", "S1", "I0", "I1", "I2", "J1", "J2"]
 
 
 class MixedSystem(_Base):
